@@ -5,8 +5,25 @@
 // wrong-length custom windows rejected.
 // CORR: window vectors (tag `win`, digests `wind` for long ones), fir1 impulse responses (tag `fir`),
 // firtype (tag `firtype`), besseli0 through kaiser(3, beta) (inside `win`).
+//
+// Second round (boundary-directed inputs; same oracle, same CORR tags):
+//  * every window parameter at tiny / huge / boundary values: tukey r at -0.5, 0 (+-0, denormals, DBL_MIN,
+//    1e-300 .. eps/2, eps, 2 eps .. 1e-4), 1 and 1.5 (each +- a few ulps), at the internal branch boundaries
+//    r = 2k/(n-1) +- ulp, log-uniform over (1e-323, 1); gauss alpha 0, denormal .. 1e308 (exp underflow / square
+//    overflow thresholds, range ends +- ulp, negative); kaiser beta 0, denormal .. 40 +- ulp, powers of two;
+//  * lengths beyond the sweep limit (2^16, 2^17 +- 1, 10^6 + 3);
+//  * fir1: order 1 and orders beyond 2000 (to 8191 with masks, 2^16 / 2^17 / 10^5 without), cut-offs within an
+//    ulp of 0, 0.02, 0.5, 0.98, 1 and at 1e-300 .. 1e-4, band-edge pairs one ulp apart / spanning (0, 1);
+//    custom windows that are periodic, zero-padded, carry -0 end points, or are scaled by 1e-300 .. 1e100
+//    (fir1 is invariant under scaling the window); temporaries as window argument; a valid design repeated
+//    after a rejected call must be bit-identical.
+// A non-finite output is reported under its own key (C11:window-nonfinite:<family>, C11:fir1-nonfinite); the
+// finite points of such an output are still compared with the closed form.
 #include "common.hpp"
 #include <algorithm>
+#include <cfloat>
+#include <cstring>
+#include <chrono>
 using namespace dsplib;
 typedef long double LD;
 static vh::Out out;
@@ -61,8 +78,11 @@ static LD win_ref(int fam, int N, int k, LD p, LD i0beta) {
     case TUKEY: {
         if (p <= 0) return 1;
         if (p >= 1) return 0.5L - 0.5L * cosl(2 * PI_L * x);
-        if (x < p / 2) return 0.5L * (1 + cosl(2 * PI_L / p * (x - p / 2)));
-        if (x > 1 - p / 2) return 0.5L * (1 + cosl(2 * PI_L / p * (x - 1 + p / 2)));
+        // evaluated on the mirrored index (x > 1 - p/2  <=>  1 - x < p/2; 1 - p/2 is not representable for p < 1e-19)
+        // and in units of samples: point kk lies in the taper iff kk < (p/2)(N-1), where w = (1 + cos(pi (kk/edge - 1)))/2
+        const int kk = std::min(k, N - 1 - k);
+        const LD edge = (p / 2) * LD(N - 1);
+        if (LD(kk) < edge) return 0.5L * (1 + cosl(PI_L * (LD(kk) / edge - 1)));
         return 1;
     }
     default: {
@@ -116,9 +136,10 @@ static void chk_window(int fam, int n, bool sym, double p, CorrMode cm) {
     const LD i0b = fam == KAISER ? bessel_i0_ld(p) : 1;
     const LD tol = 1e-12L;
     bool bad_cf = false, bad_rg = false;
-    int bad_k = -1;
+    int bad_k = -1, nf_k = -1;
     LD worst = 0;
     for (int k = 0; k < n; ++k) {
+        if (!std::isfinite(w[k])) { if (nf_k < 0) nf_k = k; continue; }   // reported below under its own key
         const LD ref = win_ref(fam, N, k, p, i0b);
         LD err = fabsl(LD(w[k]) - ref);
         if (fam == KAISER) err /= ref;   // relative: kaiser end points are as small as 1/I0(40) ~ 7e-17
@@ -128,13 +149,21 @@ static void chk_window(int fam, int n, bool sym, double p, CorrMode cm) {
     }
     const long long we = (long long)std::min<LD>(worst * 1e18L, 9e18L);
     if (we > g_worst_win_err_e18[fam]) g_worst_win_err_e18[fam] = we;
+    if (nf_k >= 0) {
+        // tukey: pi / (r/2) overflows for 0 < r < 2 pi / DBL_MAX (flagged so that the cause is visible in the witness); this probe found
+        // NaN end points for every such r, repaired in /repo by 1c79c46 (w[0] = 0 written directly)
+        const bool ovf = fam == TUKEY && p > 0 && p < 1 && std::isinf(3.141592653589793 / (p / 2));
+        out.stat("win_nonfinite_outputs");
+        out.fail("C11:window-nonfinite:" + f, js.substr(0, js.size() - 1) + ",\"k\":" + std::to_string(nf_k) + ",\"got\":" + vh::jnum(w[nf_k]) +
+                                                 (fam == TUKEY ? std::string(",\"pi_over_half_r_overflows\":") + (ovf ? "true" : "false") : std::string()) + "}");
+    }
     if (bad_cf) out.fail("C11:window-closed-form:" + f, js.substr(0, js.size() - 1) + ",\"k\":" + std::to_string(bad_k) + ",\"got\":" + vh::jnum(w[bad_k]) + "}");
     if (bad_rg) out.fail("C11:window-range:" + f, js.substr(0, js.size() - 1) + ",\"k\":" + std::to_string(bad_k) + ",\"got\":" + vh::jnum(w[bad_k]) + "}");
 
     // (c) symmetric variant symmetric about its centre
     if (sym) {
         for (int k = 0; k < n / 2; ++k)
-            if (!(std::fabs(w[k] - w[n - 1 - k]) <= 4 * EPS)) {
+            if (std::isfinite(w[k]) && std::isfinite(w[n - 1 - k]) && !(std::fabs(w[k] - w[n - 1 - k]) <= 4 * EPS)) {
                 out.fail("C11:window-symmetry:" + f, js.substr(0, js.size() - 1) + ",\"k\":" + std::to_string(k) + "}");
                 break;
             }
@@ -147,7 +176,7 @@ static void chk_window(int fam, int n, bool sym, double p, CorrMode cm) {
         bool ok = ws.size() == n + 1;
         int kk = -1;
         for (int k = 0; ok && k < n; ++k)
-            if (!(std::fabs(w[k] - ws[k]) <= 4 * EPS)) { ok = false; kk = k; }
+            if (std::isfinite(w[k]) && std::isfinite(ws[k]) && !(std::fabs(w[k] - ws[k]) <= 4 * EPS)) { ok = false; kk = k; }
         if (!ok) out.fail("C11:window-periodic-prefix:" + f, js.substr(0, js.size() - 1) + ",\"k\":" + std::to_string(kk) + "}");
     }
 }
@@ -157,10 +186,15 @@ enum FT { LOW = 0, HIGH, BPASS, BSTOP };
 static const char* ft_name[4] = {"low", "high", "bandpass", "bandstop"};
 
 // custom-window kinds (0 = default window overload)
-enum WK { W_DEFAULT = 0, W_HAMMING, W_HANN, W_BLACKMAN, W_KAISER, W_GAUSS, W_TUKEY, W_COSINE, W_BHARRIS, W_PERTURBED, NWK };
-static const char* wk_name[NWK] = {"default", "hamming", "hann", "blackman", "kaiser5", "gauss2.5", "tukey0.5", "cosine", "blackmanharris", "perturbed-hamming"};
+enum WK { W_DEFAULT = 0, W_HAMMING, W_HANN, W_BLACKMAN, W_KAISER, W_GAUSS, W_TUKEY, W_COSINE, W_BHARRIS, W_PERTURBED,
+          W_PERIODIC, W_NEGZERO, W_ZEROPAD, W_SC_M300, W_SC_M17, W_SC_M8, W_SC_P8, W_SC_P100, NWK };
+static const char* wk_name[NWK] = {"default", "hamming", "hann", "blackman", "kaiser5", "gauss2.5", "tukey0.5", "cosine", "blackmanharris", "perturbed-hamming",
+                                   "periodic-hann", "hann-negzero-ends", "zero-padded-hamming", "hamming*1e-300", "hamming*1e-17", "hamming*1e-8", "hamming*1e8", "hamming*1e100"};
+static bool wk_scaled(int k) { return k >= W_SC_M300 && k <= W_SC_P100; }
+static double wk_scale(int k) { return k == W_SC_M300 ? 1e-300 : k == W_SC_M17 ? 1e-17 : k == W_SC_M8 ? 1e-8 : k == W_SC_P8 ? 1e8 : 1e100; }
 
 static arr_real make_win(int kind, int len, vh::Rng& rng) {
+    if (len < 3 && (kind == W_HANN || kind == W_PERIODIC || kind == W_NEGZERO)) kind = W_HAMMING;   // hann(2) = {0, 0}: no taps left to normalise
     switch (kind) {
     case W_HAMMING: return window::hamming(len);
     case W_HANN: return window::hann(len);
@@ -170,6 +204,23 @@ static arr_real make_win(int kind, int len, vh::Rng& rng) {
     case W_TUKEY: return window::tukey(len, 0.5);
     case W_COSINE: return window::cosine(len);
     case W_BHARRIS: return window::blackmanharris(len);
+    case W_PERIODIC: return window::hann(len, false);   // NOT symmetric: fir1 must still return a linear-phase filter
+    case W_NEGZERO: {   // the exact zeros at the ends of hann carry a minus sign
+        arr_real w = window::hann(len);
+        for (int i = 0; i < len; ++i) if (w[i] == 0) w[i] = -0.0;
+        return w;
+    }
+    case W_ZEROPAD: {   // exact zeros in runs at both ends
+        arr_real w = window::hamming(len);
+        for (int i = 0; i < len / 4; ++i) w[i] = w[len - 1 - i] = 0.0;
+        return w;
+    }
+    case W_SC_M300: case W_SC_M17: case W_SC_M8: case W_SC_P8: case W_SC_P100: {
+        arr_real w = window::hamming(len);
+        const double sc = wk_scale(kind);
+        for (int i = 0; i < len; ++i) w[i] *= sc;
+        return w;
+    }
     default: {
         arr_real w = window::hamming(len);
         for (int i = 0; i < len; ++i) w[i] *= 0.8 + 0.4 * rng.unit();   // deliberately NOT symmetric
@@ -244,7 +295,8 @@ static void response(const arr_real& h, std::vector<LD>& mag) {
     }
 }
 
-static long long g_worst_pass_e6 = 0, g_worst_stop_e6 = 0, g_worst_gain_e18 = 0, g_worst_sym_e18 = 0;
+static long long g_worst_pass_e6 = 0, g_worst_stop_e6 = 0, g_worst_gain_e18 = 0, g_worst_sym_e18 = 0, g_worst_scale_e18 = 0;
+static bool g_no_mask = false;   // orders whose response does not fit the 8192-point FFT: everything but the masks
 
 struct Band { LD lo, hi; bool pass; };
 
@@ -303,10 +355,33 @@ static void chk_fir(int type, int n, double w1, double w2, int wk, vh::Rng& rng,
     double hmax = 0, sd = 0;
     for (int k = 0; k < M; ++k) hmax = std::max(hmax, std::fabs(h[k]));
     for (int k = 0; k < M / 2; ++k) sd = std::max(sd, std::fabs(h[k] - h[M - 1 - k]));
-    bool finite = true;
-    for (int k = 0; k < M; ++k) if (!std::isfinite(h[k])) finite = false;
-    if (!finite || !(sd <= 2 * EPS * std::max(1.0, hmax))) out.fail("C11:fir1-symmetry", js.substr(0, js.size() - 1) + ",\"max_asym\":" + vh::jnum(sd) + "}");
+    int nf_k = -1;
+    for (int k = 0; k < M; ++k) if (!std::isfinite(h[k])) { nf_k = k; break; }
+    if (nf_k >= 0) {
+        // the prototype low-pass is normalised by the sum of its taps, which all underflow to 0 for a cut-off (or band width) of one or two denormal steps
+        const double wproto = type == LOW ? w1 : type == HIGH ? 1 - w1 : 2 * ((w2 / 2 - w1 / 2) / 2);
+        out.stat("fir_nonfinite_outputs");
+        out.fail("C11:fir1-nonfinite", js.substr(0, js.size() - 1) + ",\"k\":" + std::to_string(nf_k) + ",\"got\":" + vh::jnum(h[nf_k]) +
+                                           ",\"prototype_cutoff_denormal\":" + (wproto < DBL_MIN ? "true" : "false") + "}");
+        return;
+    }
+    if (!(sd <= 2 * EPS * std::max(1.0, hmax))) out.fail("C11:fir1-symmetry", js.substr(0, js.size() - 1) + ",\"max_asym\":" + vh::jnum(sd) + "}");
     g_worst_sym_e18 = std::max(g_worst_sym_e18, (long long)(sd * 1e18));
+    // fir1 is invariant under scaling the window (the taps are normalised by their sum) — when the prototype order is odd.
+    // For an even prototype order the code sets the centre tap to 2 pi fc WITHOUT the window's centre value (equal to the
+    // textbook design only if win[centre] = 1, as for every library window), so no invariance is demanded there.
+    if (wk_scaled(wk) && ((nn - 1) % 2 == 0)) out.stat("fir_scaled_window_even_prototype_cases");
+    const double wproto_sc = wk_scaled(wk) ? wk_scale(wk) * (type == LOW ? w1 : type == HIGH ? 1 - w1 : (w2 - w1) / 2) : 1;
+    if (wk_scaled(wk) && ((nn - 1) % 2 == 1) && wproto_sc > 1e-290) {   // (below that the raw taps are denormal: no precision left to compare)
+        arr_real ref = window::hamming(nn), h0;
+        const bool ok0 = call_fir(type, n, w1, w2, &ref, h0);
+        double d = 0;
+        if (ok0 && h0.size() == M) for (int k = 0; k < M; ++k) d = std::max(d, std::fabs(h[k] - h0[k]));
+        if (!ok0 || h0.size() != M || !(d <= 1e-12 * std::max(1.0, hmax)))
+            out.fail("C11:fir1-window-scale-invariance", js.substr(0, js.size() - 1) + ",\"max_diff\":" + vh::jnum(d) + "}");
+        g_worst_scale_e18 = std::max(g_worst_scale_e18, (long long)std::min(d * 1e18, 9e18));
+        out.stat("fir_scaled_window_cases");
+    }
     {   // the library's own classification must agree: symmetric type of the right parity
         const FirType t = firtype(h);
         const FirType want = (M % 2 == 1) ? FirType::EvenSymm : FirType::OddSym;
@@ -322,25 +397,38 @@ static void chk_fir(int type, int n, double w1, double w2, int wk, vh::Rng& rng,
         g_worst_gain_e18 = std::max(g_worst_gain_e18, (long long)std::min<LD>(d * 1e18L, 9e18L));
     }
     // Hamming-design masks (default window, and the explicitly passed Hamming window)
-    if (wk == W_DEFAULT || wk == W_HAMMING) {
+    if (g_no_mask) out.stat("fir_beyond_fft_no_mask");
+    else if (wk == W_DEFAULT || wk == W_HAMMING) {
         if (chk_mask(type, n, w1, w2, h, js)) out.stat(std::string("fir_mask_checked_") + ft_name[type]);
         else out.stat(std::string("fir_mask_not_applicable_") + ft_name[type]);
     }
 }
 
-// a custom window of the wrong length must be rejected
+static bool same_bits(const arr_real& a, const arr_real& b) {
+    return a.size() == b.size() && (a.size() == 0 || std::memcmp(a.data(), b.data(), sizeof(real_t) * a.size()) == 0);
+}
+
+// a custom window of the wrong length must be rejected; a valid design computed before and after the rejected
+// call must be bit-identical (the failed call leaves nothing behind)
 static void chk_reject(int type, int n, double w1, double w2, int len, bool corr) {
     arr_real win = len > 0 ? window::hamming(std::max(len, 3)) : arr_real();
     if (len > 0 && len < 3) win = arr_real(win.slice(0, len));
     const std::string js = fir_json(type, n, w1, w2, W_HAMMING, len);
-    arr_real h;
+    arr_real h, before, after;
+    const arr_real good = window::hann(required_len(type, n));
     vh::set_current("C11:hang-or-crash:fir1-wrong-window", js);
+    const bool okb = call_fir(type, n, w1, w2, &good, before);
     const bool ok = call_fir(type, n, w1, w2, &win, h);
+    const bool oka = call_fir(type, n, w1, w2, &good, after);
+    arr_real dflt;
+    const bool okd = call_fir(type, n, w1, w2, nullptr, dflt);
     vh::clear_current();
     out.n_oracle++;
     out.stat("fir_wrong_window_cases");
     if (corr) out.corr(fir_lhs(type, n, w1, w2, &win), ok ? vh::hxs(h) : std::string("ERR"));
     if (ok) out.fail("C11:fir1-wrong-window-accepted", js);
+    if (!okb || !oka || !okd || !same_bits(before, after) || dflt.size() != required_len(type, n))
+        out.fail("C11:fir1-after-rejected-call", js);
 }
 
 static void fir_sweep_order(int n, bool thorough, bool dense, vh::Rng& rng, bool corr) {
@@ -380,12 +468,12 @@ static void fir_sweep_order(int n, bool thorough, bool dense, vh::Rng& rng, bool
     }
     // custom windows: every kind, all four types, random cut-offs
     for (int wk = W_HAMMING; wk < NWK; ++wk) {
-        if (!dense && wk != W_HAMMING && wk != W_PERTURBED && (wk + n) % 3) continue;
+        if (!dense && wk != W_HAMMING && wk != W_PERTURBED && wk != W_PERIODIC && (wk + n) % 3) continue;
         const double w = 0.02 + 0.96 * (0.0001 + 0.9998 * rng.unit());
         double a = 0.02 + 0.96 * (0.0001 + 0.9998 * rng.unit()), b = 0.02 + 0.96 * (0.0001 + 0.9998 * rng.unit());
         if (a > b) std::swap(a, b);
         if (b - a < 1e-3) { a = 0.3; b = 0.6; }
-        const bool c = corr && ((wk + n) % (thorough ? 2 : 3) == 0);
+        const bool c = corr && ((wk + n) % (thorough ? 2 : 3) == 0) && (wk <= W_PERIODIC || n <= 24 || (wk + n) % 4 == 0);   // (output volume)
         chk_fir(LOW, n, w, 0, wk, rng, c);
         chk_fir(HIGH, n, w, 0, wk, rng, c);
         chk_fir(BPASS, n, a, b, wk, rng, c);
@@ -412,6 +500,191 @@ static void fir_sweep_order(int n, bool thorough, bool dense, vh::Rng& rng, bool
     }
 }
 
+// ------------------------------------------------------------------------------------------------ boundary-directed inputs
+static const double DENORM = 4.9406564584124654e-324;
+static double up(double x, int k = 1) { for (; k > 0; --k) x = std::nextafter(x, INFINITY); return x; }
+static double dn(double x, int k = 1) { for (; k > 0; --k) x = std::nextafter(x, -INFINITY); return x; }
+static void around(std::vector<double>& v, double c, int k = 2) {
+    for (int j = k; j >= 1; --j) v.push_back(dn(c, j));
+    v.push_back(c);
+    for (int j = 1; j <= k; ++j) v.push_back(up(c, j));
+}
+// positive magnitudes from the smallest denormal to 1e-4 (the classes lesson 1 / lesson 6 ask for)
+static std::vector<double> tiny_scales() {
+    return {DENORM, 2 * DENORM, 1e-320, 1e-310, dn(DBL_MIN), DBL_MIN, up(DBL_MIN), 3e-308, 3.4e-308, 3.6e-308, 4e-308, 1e-307, 1e-300, 1e-200, 1e-100,
+            1e-30, 1e-20, 1e-17, EPS / 2, dn(EPS), EPS, up(EPS), 2 * EPS, 1e-15, 1e-12, 1e-9, 1e-8, 1e-4, 0.0009765625 /* 2^-10 */};
+}
+
+static std::vector<double> tukey_boundary_params(int n, vh::Rng& rng) {
+    std::vector<double> v;
+    around(v, -0.5, 1);
+    for (double t : {1e-8, 1e-300, DBL_MIN, DENORM}) v.push_back(-t);
+    v.push_back(-0.0); v.push_back(0.0);
+    for (double t : tiny_scales()) v.push_back(t);
+    v.push_back(0.25); around(v, 0.5, 1); v.push_back(1 - 1e-8);
+    around(v, 1.0, 2); v.push_back(1 + 1e-8);
+    around(v, 1.5, 1);
+    // the taper covers floor(r/2 (n-1)) + 1 points: r = 2k/(n-1) is the internal branch boundary
+    std::vector<int> ks = {1, (n - 1) / 4, (n - 1) / 2 - 1, rng.range(1, std::max(1, (n - 1) / 2))};
+    for (int k : ks) {
+        const double r0 = 2.0 * k / (n - 1);
+        if (k >= 1 && r0 > 0 && r0 < 1) around(v, r0, 1);
+    }
+    // random: log-uniform over (1e-323, 1); a random denormal; a random neighbour (<= 4 ulps) of 0+, eps, 1
+    v.push_back(std::pow(10.0, -323.0 * rng.unit()));
+    v.push_back(std::pow(10.0, -20.0 * rng.unit()));
+    v.push_back(DENORM * rng.range(1, 1 << 30));
+    v.push_back(up(EPS, rng.range(0, 4))); v.push_back(dn(EPS, rng.range(1, 4)));
+    v.push_back(dn(1.0, rng.range(1, 4))); v.push_back(up(0.0, rng.range(1, 4)));
+    return v;
+}
+static std::vector<double> gauss_boundary_params(vh::Rng& rng) {
+    std::vector<double> v = {0.0, -0.0, DENORM, DBL_MIN, 1e-300, 1e-100, 1e-17, EPS, 1e-8, 1e-4, 1.0, 2.0, 4.0, -0.5, -2.5, -6.0,
+                             10.0, 26.0, 37.0, 38.0, 38.5, 38.6, 38.7, 39.0, 100.0, 1e8, 1e100, 1e153, 1.3e154, 1.4e154, 1e200, 1e308, DBL_MAX};
+    around(v, 0.5, 1); around(v, 6.0, 1);
+    v.push_back(std::pow(10.0, 600.0 * rng.unit() - 300.0));
+    v.push_back(std::pow(10.0, 3.0 * rng.unit() - 1.0));
+    return v;
+}
+static std::vector<double> kaiser_boundary_params(vh::Rng& rng) {
+    std::vector<double> v = {0.0, -0.0, DENORM, DBL_MIN, 1e-300, 1e-200, 1e-160, 1e-100, 1e-17, EPS, 1e-8, 1e-4, 0.0009765625, 0.5, 1.0, 2.0, 4.0, 8.0, 16.0, 32.0, 39.999};
+    around(v, 40.0, 1);
+    v.push_back(std::pow(10.0, -323.0 * rng.unit()));
+    v.push_back(dn(40.0, rng.range(1, 1000)));
+    v.push_back(40.0 * std::pow(10.0, -3.0 * rng.unit()));
+    return v;
+}
+
+static void window_boundary_probes(bool thorough, vh::Rng& rng) {
+    std::vector<int> ns = {3, 4, 5, 16, 17, 64, 255};
+    if (thorough) {
+        ns.clear();
+        for (int n = 3; n <= 40; ++n) ns.push_back(n);
+        for (int n : {63, 64, 65, 100, 127, 128, 255, 256, 257, 512, 1000, 4097, 100000}) ns.push_back(n);
+    }
+    long long cnt = 0;
+    for (int n : ns) {
+        const CorrMode cm = n <= 64 ? FULL : (n <= 5000 ? DIGEST : NOCORR);
+        for (double r : tukey_boundary_params(n, rng)) { chk_window(TUKEY, n, true, r, cm); ++cnt; }
+        for (double al : gauss_boundary_params(rng))
+            for (int sym = 1; sym >= 0; --sym) { chk_window(GAUSS, n, sym, al, cm); ++cnt; }
+        for (double b : kaiser_boundary_params(rng)) { chk_window(KAISER, n, true, b, cm); ++cnt; }
+    }
+    out.stats["win_boundary_parameter_cases"] = cnt;
+    // lengths beyond the sweep limit (first such call arrives after all the smaller ones)
+    std::vector<int> big = {131073};
+    if (thorough) big = {65535, 65536, 65537, 100001, 131071, 131072, 131073, 262144, 1000003};
+    for (int n : big)
+        for (int fam = 0; fam < NFAM; ++fam) {
+            std::vector<double> ps = {0};
+            if (fam == GAUSS) ps = {2.5, 6.0};
+            if (fam == TUKEY) ps = {1e-300, 0.5, dn(1.0)};
+            if (fam == KAISER) ps = {1e-8, 40.0};
+            for (double p : ps)
+                for (int sym = 1; sym >= 0; --sym) {
+                    if (!sym && !fam_has_periodic(fam)) continue;
+                    chk_window(fam, n, sym, p, NOCORR);
+                    out.stat("win_beyond_sweep_limit_cases");
+                }
+        }
+}
+
+static void fir_boundary_probes(bool thorough, vh::Rng& rng) {
+    std::vector<int> orders = {1, 2, 3, 8, 9, 64};
+    if (thorough) orders = {1, 2, 3, 4, 5, 6, 7, 8, 9, 16, 17, 63, 64, 255, 256, 1999, 2000, 2001, 2047, 2048, 4095, 4096, 8189, 8190};   // (8190 + 2 taps is the largest response the 8192-point FFT holds)
+    std::vector<double> cuts = {DENORM, 2 * DENORM, 1e-310, DBL_MIN, 1e-300, 1e-100, 1e-17, EPS, 1e-8, 1e-4, 0.25, 0.75, 1 - 1e-4, 1 - 1e-8, 1 - EPS, dn(1.0)};
+    around(cuts, 0.02, 1); around(cuts, 0.5, 1); around(cuts, 0.98, 1);
+    cuts.push_back(std::pow(10.0, -323.0 * rng.unit()));
+    cuts.push_back(1 - std::pow(10.0, -16.0 * rng.unit()));
+    std::vector<std::pair<double, double>> pairs = {
+        {DENORM, dn(1.0)}, {DENORM, 2 * DENORM}, {DBL_MIN, 2 * DBL_MIN}, {1e-300, 0.5}, {0.5, dn(1.0)}, {1e-8, 1 - 1e-8}, {EPS, 2 * EPS},
+        {0.02, up(0.02)}, {0.5, up(0.5)}, {dn(0.5), 0.5}, {dn(0.98), 0.98}, {dn(1.0, 2), dn(1.0)}, {up(0.02), dn(0.98)}, {0.25, 0.75}, {0.3, 0.3 + 1e-9}};
+    long long cnt = 0;
+    for (int n : orders) {
+        const bool corr = n <= 64;
+        for (double w : cuts) {
+            chk_fir(LOW, n, w, 0, W_DEFAULT, rng, corr);
+            chk_fir(HIGH, n, w, 0, W_DEFAULT, rng, corr);
+            cnt += 2;
+        }
+        for (auto& pr : pairs) {
+            chk_fir(BPASS, n, pr.first, pr.second, W_DEFAULT, rng, corr);
+            chk_fir(BSTOP, n, pr.first, pr.second, W_DEFAULT, rng, corr);
+            cnt += 2;
+        }
+        // boundary cut-offs with custom windows (incl. scaled / periodic / zero-padded ones)
+        for (int wk : {W_HANN, W_KAISER, W_PERIODIC, W_NEGZERO, W_ZEROPAD, W_SC_M300, W_SC_P100, W_PERTURBED}) {
+            const double w = cuts[rng.range(0, int(cuts.size()) - 1)];
+            const auto& pr = pairs[rng.range(0, int(pairs.size()) - 1)];
+            chk_fir(LOW, n, w, 0, wk, rng, corr && n <= 16);
+            chk_fir(HIGH, n, w, 0, wk, rng, corr && n <= 16);
+            chk_fir(BPASS, n, pr.first, pr.second, wk, rng, corr && n <= 16);
+            chk_fir(BSTOP, n, pr.first, pr.second, wk, rng, corr && n <= 16);
+            cnt += 4;
+        }
+    }
+    out.stats["fir_boundary_cases"] = cnt;
+    // orders whose response does not fit the long-double FFT: everything but the masks (first large call after many small ones)
+    g_no_mask = true;
+    std::vector<int> big = {65536, 131073};
+    if (thorough) big = {8192, 10000, 49152, 65535, 65536, 65537, 100000, 131071, 131072, 131073, 196608};
+    for (int n : big) {
+        const double w = 0.02 + 0.96 * rng.unit();
+        for (int wk : {W_DEFAULT, W_KAISER, W_PERIODIC}) {
+            chk_fir(LOW, n, w, 0, wk, rng, false);
+            chk_fir(HIGH, n, w, 0, wk, rng, false);
+            chk_fir(BPASS, n, 0.3, 0.6, wk, rng, false);
+            chk_fir(BSTOP, n, 0.3, 0.6, wk, rng, false);
+        }
+        chk_reject(LOW, n, 0.4, 0.7, n, false);
+        chk_reject(HIGH, n, 0.4, 0.7, n + 1 + (n % 2 == 0), false);
+    }
+    g_no_mask = false;
+}
+
+// results built from temporaries / bound to references / copied must equal those from named operands bit for bit
+static void value_category_probes(bool thorough, vh::Rng& rng) {
+    std::vector<int> ns = {3, 8, 33};
+    if (thorough) for (int n = 4; n <= 70; n += 3) ns.push_back(n);
+    for (int n : ns) {
+        const double w1 = 0.02 + 0.5 * rng.unit(), w2 = w1 + 0.01 + 0.4 * rng.unit(), r = rng.unit(), be = 40 * rng.unit();
+        const std::string js = "{\"op\":\"value-category\",\"n\":" + std::to_string(n) + ",\"wn1\":" + vh::jnum(w1) + ",\"wn2\":" + vh::jnum(w2) + ",\"r\":" + vh::jnum(r) + ",\"beta\":" + vh::jnum(be) + "}";
+        vh::set_current("C11:hang-or-crash:value-category", js);
+        bool ok = true;
+        try {
+            for (int type = 0; type < 4; ++type) {
+                const int nn = required_len(type, n);
+                const arr_real named = window::kaiser(nn, be);
+                arr_real a, b, c;
+                call_fir(type, n, w1, w2, &named, a);
+                const arr_real copy = named;   // a copy of the window is an independent, equal window
+                call_fir(type, n, w1, w2, &copy, c);
+                if (type == LOW) b = fir1(n, w1, FilterType::Low, window::kaiser(nn, be));
+                if (type == HIGH) b = fir1(n, w1, FilterType::High, window::kaiser(nn, be));
+                if (type == BPASS) b = fir1(n, w1, w2, FilterType::Bandpass, window::kaiser(nn, be));
+                if (type == BSTOP) b = fir1(n, w1, w2, FilterType::Bandstop, window::kaiser(nn, be));
+                const arr_real& bound = fir1(n, w1, FilterType::Low, window::hamming(n + 1));   // temporary bound to const&
+                const arr_real dflt = fir1(n, w1, FilterType::Low);
+                if (!same_bits(a, b) || !same_bits(a, c) || !same_bits(bound, dflt) || a.size() != nn) ok = false;
+                if (!same_bits(named, window::kaiser(nn, be))) ok = false;   // the window argument is not modified
+            }
+            const arr_real& tw = window::tukey(n, r);
+            const arr_real tn = window::tukey(n, r);
+            int k = 0;
+            for (double x : window::tukey(n, r)) { if (std::memcmp(&x, &tn[k], sizeof x)) ok = false; ++k; }
+            if (k != n || !same_bits(tw, tn)) ok = false;
+            // repeated calls with interleaved other parameters return the same bits (no hidden state)
+            const arr_real g1 = window::gauss(n, 2.5), k1 = window::kaiser(n, be);
+            (void)window::gauss(n, 0.5); (void)window::kaiser(n + 1, 1.0); (void)window::tukey(n, 1e-300);
+            if (!same_bits(g1, window::gauss(n, 2.5)) || !same_bits(k1, window::kaiser(n, be)) || !same_bits(tn, window::tukey(n, r))) ok = false;
+        } catch (const std::exception&) { ok = false; }
+        vh::clear_current();
+        out.n_oracle++;
+        out.stat("value_category_cases");
+        if (!ok) out.fail("C11:value-category", js);
+    }
+}
+
 int main(int argc, char** argv) {
     vh::Args a(argc, argv);
     vh::install_guards();
@@ -432,6 +705,9 @@ int main(int argc, char** argv) {
         // random parameter of the property's range
         const double u = rng.unit();
         ps.push_back(fam == GAUSS ? 0.5 + 5.5 * u : fam == TUKEY ? -0.5 + 2.0 * u : 40.0 * u);
+        // boundary-directed random parameter: log-uniform magnitude (tukey (1e-323, 1), gauss (1e-300, 1e300), kaiser (1e-323, 40))
+        const double v = rng.unit();
+        ps.push_back(fam == GAUSS ? std::pow(10.0, 600.0 * v - 300.0) : fam == TUKEY ? std::pow(10.0, -323.0 * v) : 40.0 * std::pow(10.0, -324.6 * v));
         return ps;
     };
     const int NW = a.thorough ? 512 : 96;
@@ -475,6 +751,10 @@ int main(int argc, char** argv) {
             ++bi;
         }
     }
+    const auto t0 = std::chrono::steady_clock::now();
+    auto ms_since = [&](std::chrono::steady_clock::time_point t) { return (long long)std::chrono::duration_cast<std::chrono::milliseconds>(std::chrono::steady_clock::now() - t).count(); };
+    window_boundary_probes(a.thorough, rng);
+    out.stats["time_ms_window_boundary_probes"] = ms_since(t0);
     for (int fam = 0; fam < NFAM; ++fam) out.stats[std::string("win_worst_err_1e-18_") + fam_name[fam]] = g_worst_win_err_e18[fam];
 
     // -------------------------------------------------------------------------------- fir1
@@ -487,6 +767,11 @@ int main(int argc, char** argv) {
         int bi = 0;
         for (int n : big) { fir_sweep_order(n, a.thorough, false, rng, bi % 5 == 0 && n <= 600); ++bi; }
     }
+    const auto t1 = std::chrono::steady_clock::now();
+    fir_boundary_probes(a.thorough, rng);
+    out.stats["time_ms_fir_boundary_probes"] = ms_since(t1);
+    value_category_probes(a.thorough, rng);
+    out.stats["fir_worst_scale_invariance_diff_1e-18"] = g_worst_scale_e18;
     out.stats["fir_worst_passband_dev_1e-6"] = g_worst_pass_e6;
     out.stats["fir_worst_stopband_1e-6"] = g_worst_stop_e6;
     out.stats["fir_worst_gain_err_1e-18"] = g_worst_gain_e18;
